@@ -56,6 +56,13 @@ pub fn vpanic_forbidden<T>() -> (r: T)
     ensures false
 { unimplemented!() }
 pub fn vdrop<T>(t: T) { }      // `drop(e)` (rule D5)
+// Option / Result ::unwrap_or_default (rule C1u): the contained value if there is one; otherwise `Default::default()`, about which nothing is assumed
+pub trait HxUnwrapOrDefault: Sized { type V; spec fn hx_has(&self) -> bool; spec fn hx_val(&self) -> Self::V;
+    fn hx_unwrap_or_default(self) -> (r: Self::V) ensures self.hx_has() ==> r == self.hx_val(); }
+impl<T> HxUnwrapOrDefault for Option<T> { type V = T; open spec fn hx_has(&self) -> bool { self is Some } open spec fn hx_val(&self) -> T { self->0 }
+    #[verifier::external_body] fn hx_unwrap_or_default(self) -> (r: T) { unimplemented!() } }
+impl<T, E> HxUnwrapOrDefault for Result<T, E> { type V = T; open spec fn hx_has(&self) -> bool { self is Ok } open spec fn hx_val(&self) -> T { self->Ok_0 }
+    #[verifier::external_body] fn hx_unwrap_or_default(self) -> (r: T) { unimplemented!() } }
 #[verifier::external_body]
 pub fn vpanic<T>() -> (r: T) ensures false { unimplemented!() }
 
@@ -95,6 +102,13 @@ impl<F: VFuture> VFuture for MapOk<F> {
 }
 pub trait VFutureExt: VFuture { fn map_ok(self) -> (r: MapOk<Self>) ensures r.inner == self; }
 impl<F: VFuture> VFutureExt for F { fn map_ok(self) -> (r: MapOk<Self>) { MapOk { inner: self } } }
+// FutureExt::now_or_never: one poll; Some(out) if the future completed in it, otherwise the future is dropped un-finished
+pub trait VFutureNow: VFuture {
+    fn now_or_never(self, Tracked(w): Tracked<&mut World>) -> (r: Option<Self::Output>)
+        requires self.pre(old(w)),
+        ensures r is Some ==> self.done(old(w), final(w), &r->0), r is None ==> self.dropped(old(w), final(w));
+}
+impl<F: VFuture> VFutureNow for F { #[verifier::external_body] fn now_or_never(self, Tracked(w): Tracked<&mut World>) -> (r: Option<Self::Output>) { unimplemented!() } }
 
 // futures_timer::Delay (ghost duration only)
 pub struct Delay { pub d: u64 }
